@@ -48,6 +48,11 @@ CONFIGS = {
                            get=[("BUILD", 0), ("BASE64", None), ("HEADER", b"Cookie")],
                            post=[("BUILD", 0), ("BASE64URL", None), ("PARAMETER", b"id"), ("BUILD", 1), ("PREPEND", b"\r\n\r\n"), ("APPEND", b"\r\n\r\n\r\n--end"), ("PRINT", None)],
                            recover=[("print", None), ("append", 4), ("prepend", 6)], server_fill=b"\r\n\r\n\r\n"),
+    # configured URIs are compared as they are spelled: upper-case letters in the get and submit URIs, data appended to both
+    "mixed_case_uris": dict(domains="a.example,/Api/v2/Check/,b.example,/API/V2/check/x", submit="/Api/V2/Submit/",
+                            get=[("BUILD", 0), ("BASE64URL", None), ("URI_APPEND", None)],
+                            post=[("BUILD", 0), ("NETBIOSU", None), ("URI_APPEND", None), ("BUILD", 1), ("MASK", None), ("BASE64", None), ("PRINT", None)],
+                            recover=[("print", None), ("base64", None)]),
     "swapped_verbs": dict(domains="a.example,/in", submit="/out", verb_get="POST", verb_post="GET",
                           get=[("BUILD", 0), ("BASE64", None), ("PRINT", None)],
                           post=[("BUILD", 0), ("BASE64URL", None), ("PARAMETER", b"i"), ("BUILD", 1), ("BASE64URL", None), ("HEADER", b"X-Data")],
